@@ -18,7 +18,7 @@ def main():
   for p in props:
     pid = p["id"]
     path = os.path.join(HERE, "rules", pid.lower() + ".py")
-    if not os.path.exists(path):
+    if not os.path.exists(path) or pid in sys.argv[1:]:
       na.append({"property_id": pid, "reason": NA_REASONS.get(
           pid, "check not built yet (work in progress)")})
       continue
